@@ -45,6 +45,11 @@ def remap_curie_prefixes(converter: Converter, remapping: Mapping[str, str]) -> 
 
     :returns: An upgraded converter
     """
+    # work on a copy, since records are renamed in place and looked up through the converter
+    converter = Converter(
+        [record.model_copy(deep=True) for record in converter.records],
+        delimiter=converter.delimiter,
+    )
     ordering = _order_curie_remapping(converter, remapping)
     intersection = set(remapping).intersection(remapping.values())
     records = {r.prefix: r for r in converter.records}
@@ -103,6 +108,7 @@ def remap_uri_prefixes(converter: Converter, remapping: Mapping[str, str]) -> Co
 
     records = []
     for record in converter.records:
+        record = record.model_copy(deep=True)
         new_uri_prefix = _get_uri_preferred_or_synonym(record, remapping)
         if new_uri_prefix is None:
             pass  # nothing to upgrade
@@ -134,6 +140,7 @@ def rewire(converter: Converter, rewiring: Mapping[str, str]) -> Converter:
     """
     records = []
     for record in converter.records:
+        record = record.model_copy(deep=True)
         new_uri_prefix = _get_curie_preferred_or_synonym(record, rewiring)
         if new_uri_prefix is None:
             pass  # nothing to upgrade
